@@ -11,3 +11,7 @@ import DsdVerif.Props.C13Gaps
 import DsdVerif.Props.C13GapsRx
 import DsdVerif.Props.C13GapsCplx
 import DsdVerif.Props.C13GapsKernel
+import DsdVerif.Props.C13Reject
+import DsdVerif.Props.C13RejectKernel
+import DsdVerif.Props.C13RejectEx
+import DsdVerif.Props.C13SoundSig
